@@ -95,8 +95,8 @@ pub trait Scalar:
     fn k(v: f32) -> Self;
     /// declare / look up an input
     fn input(name: &str, dom: Dom) -> Self;
-    fn le(self, o: Self) -> Self::B;
-    fn lt(self, o: Self) -> Self::B;
+    fn le_(self, o: Self) -> Self::B;
+    fn lt_(self, o: Self) -> Self::B;
     fn eq_(self, o: Self) -> Self::B;
     fn nan(self) -> Self::B;
     fn abs_(self) -> Self;
@@ -112,11 +112,11 @@ pub trait Scalar:
     /// the harness is about to build specification terms (true) / call the code under test (false)
     fn spec(on: bool);
 
-    fn ge(self, o: Self) -> Self::B {
-        o.le(self)
+    fn ge_(self, o: Self) -> Self::B {
+        o.le_(self)
     }
-    fn gt(self, o: Self) -> Self::B {
-        o.lt(self)
+    fn gt_(self, o: Self) -> Self::B {
+        o.lt_(self)
     }
     /// exact equality, true also when both are NaN; closes syntactically when `same`
     fn ident(self, o: Self) -> Self::B {
@@ -130,7 +130,7 @@ pub trait Scalar:
         if self.same(o) {
             return <Self::B as Logic>::t();
         }
-        (self - o).abs_().le(Self::k(k * f32::EPSILON) * m.abs_())
+        (self - o).abs_().le_(Self::k(k * f32::EPSILON) * m.abs_())
     }
     /// the sum as `core::iter::Sum for f32` computes it
     fn sum<I: IntoIterator<Item = Self>>(it: I) -> Self {
@@ -182,10 +182,10 @@ impl Scalar for f32 {
             }
         })
     }
-    fn le(self, o: f32) -> bool {
+    fn le_(self, o: f32) -> bool {
         self <= o
     }
-    fn lt(self, o: f32) -> bool {
+    fn lt_(self, o: f32) -> bool {
         self < o
     }
     fn eq_(self, o: f32) -> bool {
@@ -230,10 +230,10 @@ impl Scalar for Sf {
     fn input(name: &str, dom: Dom) -> Sf {
         dag::input(name, dom)
     }
-    fn le(self, o: Sf) -> Bx {
+    fn le_(self, o: Sf) -> Bx {
         Bx::cmp(Cmp::Le, self, o)
     }
-    fn lt(self, o: Sf) -> Bx {
+    fn lt_(self, o: Sf) -> Bx {
         Bx::cmp(Cmp::Lt, self, o)
     }
     fn eq_(self, o: Sf) -> Bx {
